@@ -15,7 +15,8 @@ SPEC = {
                 "PyMatterSim.utils.funcs:nidealfac"],
     "must_reach": ["PyMatterSim.static.gr:gr.unary", "PyMatterSim.static.gr:gr.binary", "PyMatterSim.static.gr:gr.ternary",
                    "PyMatterSim.static.gr:gr.quarternary", "PyMatterSim.static.gr:gr.quinary"],
-    "floors": {"columns": 400, "layout": 100, "sum_rule": 80, "routing_probe": 35, "csv": 20, "same_binning_other_dimension": 10, "same_binning_same_dimension": 20},
+    "floors": {"columns": 400, "layout": 100, "sum_rule": 80, "routing_probe": 35, "csv": 20, "same_binning_other_dimension": 10, "same_binning_same_dimension": 20,
+               "configurations_with_coincident_sites": 2},
     "rule": ("{gas, perturbed lattice, clusters, hard-core} x K=1..6 x {2D,3D} x {orthogonal, triclinic +/-} x masks x "
              "bin widths x 1..4 frames x N 2..70, plus the exhaustive species-pair routing probe (35 pairs for K=1..5); "
              "non-trivial = at least one compared bin holds a pair and fewer than 20% of compared bins are tie-relaxed; "
@@ -64,6 +65,14 @@ def one_case(ctx, rng, wd, K=None, force=None, force_N=None):
         # the same trajectory in SI metres / in fm (R10): the bin width scales with it, g(r) is dimensionless
         snaps, cell, inf = gc.rescale_units(snaps, cell, inf, float(rng.choice([1e-9, 1e-10, 1e5])))
     ppp = gc.random_mask(rng, d)
+    if rng.random() < 0.1 and inf["N"] >= 4 and all(s_.positions.flags.writeable for s_ in snaps.snapshots):
+        # sites sitting EXACTLY on another particle (virtual / Drude / core-shell sites on their parent, shared sublattice sites): distinct
+        # particles at zero separation are pairs like any other and belong to the first bin
+        for s_ in snaps.snapshots:
+            for _ in range(int(rng.integers(1, 4))):
+                i_, j_ = rng.choice(inf["N"], size=2, replace=False)
+                s_.positions[int(i_)] = s_.positions[int(j_)]
+        ctx.count("configurations_with_coincident_sites")
     gc.unwrap_in_place(rng, snaps.snapshots, inf["Hs"], ppp)       # unwrapped coordinates: the same periodic configuration
     Lmin = float(np.min(np.diag(cell["H"])))
     w = float(rng.uniform(0.02, 0.25) * Lmin)
